@@ -9,7 +9,6 @@ import (
 	"encoding/json"
 	"fmt"
 	"strings"
-	"time"
 
 	"Havoc/pkg/events"
 	"Havoc/pkg/handlers"
@@ -54,12 +53,12 @@ func (w *c06World) line(c *Ctx, in string) {
 		}
 		w.conns[parts[1]] = wc
 		w.names = append(w.names, parts[1])
-		c.Emit("%s => %s %s", in, w.obsAll(w.names, 25*time.Millisecond), w.state())
+		c.Emit("%s => %s %s", in, w.obsAll(w.names, ms(25)), w.state())
 	case "send": // send <name> <texthex> [msg=…]: the summary of the message is (re)computed here
 		if wc := w.conns[parts[1]]; wc != nil {
 			wc.c.WriteMessage(websocket.TextMessage, unhx(parts[2]))
 		}
-		c.Emit("send %s %s msg=%s => %s %s", parts[1], parts[2], msgSummary(unhx(parts[2])), w.obsAll(w.names, 40*time.Millisecond), w.state())
+		c.Emit("send %s %s msg=%s => %s %s", parts[1], parts[2], msgSummary(unhx(parts[2])), w.obsAll(w.names, ms(40)), w.state())
 	case "sconn": // sconn <name>: a connection to the service endpoint
 		wc, err := w.dial("svc")
 		if err != nil {
@@ -68,30 +67,30 @@ func (w *c06World) line(c *Ctx, in string) {
 		}
 		w.conns[parts[1]] = wc
 		w.names = append(w.names, parts[1])
-		c.Emit("%s => %s %s", in, w.obsAll(w.names, 25*time.Millisecond), w.state())
+		c.Emit("%s => %s %s", in, w.obsAll(w.names, ms(25)), w.state())
 	case "ssend": // ssend <name> <texthex>: both readings of the message are computed here
 		if wc := w.conns[parts[1]]; wc != nil {
 			wc.c.WriteMessage(websocket.TextMessage, unhx(parts[2]))
 		}
 		hello, req := svcSummary(unhx(parts[2]))
-		c.Emit("ssend %s %s hello=%s req=%s => %s %s", parts[1], parts[2], hello, req, w.obsAll(w.names, 40*time.Millisecond), w.state())
+		c.Emit("ssend %s %s hello=%s req=%s => %s %s", parts[1], parts[2], hello, req, w.obsAll(w.names, ms(40)), w.state())
 	case "world":
 		c.Emit("%s", in)
 	case "bcast": // bcast <marker>: a chat event recorded and broadcast by the server
 		pk := events.ChatLog.NewUserConnected("marker-" + parts[1])
 		w.ts.EventAppend(pk)
 		w.ts.EventBroadcast("", pk)
-		c.Emit("%s => %s %s", in, w.obsAll(w.names, 25*time.Millisecond), w.state())
+		c.Emit("%s => %s %s", in, w.obsAll(w.names, ms(25)), w.state())
 	case "register": // an agent registers: NewSession event (with keys) is broadcast
 		w.nreg++
 		id := 0x00c06000 + w.nreg
 		handlers.VerifParseAgentRequest(w.ts, initPackage(id, id, make([]byte, 32), make([]byte, 16), regInfo{Hostname: "h", ProcName: "p"}), "1.1.1.1")
-		c.Emit("%s => %s %s", in, w.obsAll(w.names, 25*time.Millisecond), w.state())
+		c.Emit("%s => %s %s", in, w.obsAll(w.names, ms(25)), w.state())
 	case "close":
 		if wc := w.conns[parts[1]]; wc != nil {
 			wc.c.Close()
 		}
-		c.Emit("%s => %s %s", in, w.obsAll(w.names, 25*time.Millisecond), w.state())
+		c.Emit("%s => %s %s", in, w.obsAll(w.names, ms(25)), w.state())
 	default:
 		panic("C06: unknown op " + parts[0])
 	}
